@@ -12,6 +12,7 @@ import gc
 import logging
 import os
 import pickle
+import queue as _queue
 import sys
 import threading
 import time
@@ -194,7 +195,7 @@ class Sched:
             if t.state == "runnable":
                 out.append(t)
             elif t.state == "blocked":
-                if t.kill_pending or t.pred():
+                if t.kill_pending or t.pred() or (t.wake is not None and t.wake <= self.now):
                     out.append(t)
             elif t.state == "sleeping":
                 if t.kill_pending or t.wake <= self.now:
@@ -207,7 +208,7 @@ class Sched:
             r = self._runnable()
             if r:
                 return self.pick(r)
-            sleepers = [t for t in self.tasks if t.state == "sleeping"]
+            sleepers = [t for t in self.tasks if t.state == "sleeping" or (t.state == "blocked" and t.wake is not None)]
             if not sleepers:
                 return None
             self.now = min(t.wake for t in sleepers)
@@ -221,8 +222,9 @@ class Sched:
         self.hang = f"{kind} at step {self.steps}, t={self.now:.2f}s: {table}"
         self.abort = self.hang
 
-    def point(self, reason, pred=None, wake=None, blocked_on=None):
-        """Scheduling point of the current task."""
+    def point(self, reason, pred=None, wake=None, blocked_on=None, deadline=None):
+        """Scheduling point of the current task. pred: block until it holds (or, with a
+        deadline, until that simulated time: the caller re-checks pred to tell which)."""
         me = self.me()
         if me is None:
             # not a simulated task (harness clean-up): only the clock moves
@@ -241,6 +243,7 @@ class Sched:
             # the condition is re-evaluated whenever the task is a candidate: another task
             # may run first and consume what this one is waiting for
             me.state, me.pred, me.blocked_on = "blocked", pred, blocked_on
+            me.wake = deadline
         elif wake is not None:
             me.state, me.wake, me.blocked_on = "sleeping", wake, f"sleep until {wake:.2f}"
         else:
@@ -398,8 +401,16 @@ class SimQueue:
         data = pickle.dumps(obj)
         if self.maxsize > 0 and len(self.items) >= self.maxsize:
             self.s.stats["queue_full_blocks"] += 1
-        self.s.point(f"put:q{self.qid}", pred=(lambda: len(self.items) < self.maxsize) if self.maxsize > 0 else None,
-                     blocked_on=f"put on full q{self.qid}")
+        room = (lambda: len(self.items) < self.maxsize) if self.maxsize > 0 else None
+        if room is not None and not block:
+            if not room():
+                raise _queue.Full()
+            self.s.point(f"put:q{self.qid}")
+        else:
+            self.s.point(f"put:q{self.qid}", pred=room, blocked_on=f"put on full q{self.qid}",
+                         deadline=None if (timeout is None or room is None) else self.s.now + max(0.0, float(timeout)))
+            if room is not None and not room():
+                raise _queue.Full()
         self.items.append(data)
         self.max_depth = max(self.max_depth, len(self.items))
 
@@ -408,7 +419,15 @@ class SimQueue:
             raise ValueError(f"Queue {self!r} is closed")
         if not self.items:
             self.s.stats["queue_empty_blocks"] += 1
-        self.s.point(f"get:q{self.qid}", pred=lambda: len(self.items) > 0, blocked_on=f"get on empty q{self.qid}")
+        if not block:
+            if not self.items:
+                raise _queue.Empty()
+            self.s.point(f"get:q{self.qid}")
+        else:
+            self.s.point(f"get:q{self.qid}", pred=lambda: len(self.items) > 0, blocked_on=f"get on empty q{self.qid}",
+                         deadline=None if timeout is None else self.s.now + max(0.0, float(timeout)))
+        if not self.items:
+            raise _queue.Empty()
         obj = pickle.loads(self.items.pop(0))
         run = _RUN
         me = self.s.me()
@@ -439,8 +458,17 @@ class SimQueue:
     def empty(self):
         return not self.items
 
+    def full(self):
+        return self.maxsize > 0 and len(self.items) >= self.maxsize
+
     def qsize(self):
         return len(self.items)
+
+    def get_nowait(self):
+        return self.get(False)
+
+    def put_nowait(self, obj):
+        return self.put(obj, False)
 
 
 class SimProcess:
@@ -451,6 +479,7 @@ class SimProcess:
         self.kwargs = dict(kwargs or {})
         self.task = None
         self.name = name
+        self.daemon = False
 
     def start(self):
         s = self.s
@@ -532,7 +561,18 @@ class SimProcess:
         if self.task is None:
             raise AssertionError("can only join a started process")
         t = self.task
-        self.s.point("join:" + t.name, pred=lambda: t.done, blocked_on=f"join {t.name}")
+        self.s.point("join:" + t.name, pred=lambda: t.done, blocked_on=f"join {t.name}",
+                     deadline=None if timeout is None else self.s.now + max(0.0, float(timeout)))
+
+    @property
+    def sentinel(self):
+        if self.task is None:
+            raise ValueError("process not started")
+        return SimSentinel(self)
+
+    def close(self):
+        if self.task is not None and not self.task.done:
+            raise ValueError("Cannot close a process while it is still running. You should first call join() or terminate().")
 
     def kill(self):
         if self.task is None:
@@ -547,6 +587,39 @@ class SimProcess:
     @property
     def pid(self):
         return self.task.pid if self.task else None
+
+
+class SimSentinel:
+    """stands for Process.sentinel: ready once the process has ended"""
+
+    def __init__(self, proc):
+        self.proc = proc
+
+    def __eq__(self, other):
+        return isinstance(other, SimSentinel) and other.proc is self.proc
+
+    def __hash__(self):
+        return hash(id(self.proc))
+
+
+import multiprocessing.connection as _mpc  # noqa: E402
+
+_REAL_WAIT = _mpc.wait
+
+
+def sim_wait(object_list, timeout=None):
+    """multiprocessing.connection.wait over simulated sentinels (anything else: the real one)"""
+    objs = list(object_list)
+    if not objs or not all(isinstance(o, SimSentinel) for o in objs):
+        return _REAL_WAIT(objs, timeout)
+    s = objs[0].proc.s
+
+    def ready():
+        return [o for o in objs if o.proc.task is not None and o.proc.task.done]
+
+    s.point("wait:sentinels", pred=lambda: bool(ready()), blocked_on="connection.wait",
+            deadline=None if timeout is None else s.now + max(0.0, float(timeout)))
+    return ready()
 
 
 class SimContext:
@@ -753,6 +826,12 @@ def simulate(desc, rng=None):
     old = (H.get_context, H.datetime)
     H.get_context = lambda method=None: SimContext(s)
     H.datetime = SimDatetime
+    # multiprocessing.connection.wait over process sentinels: stdlib attribute and, if the
+    # tree imported the name, the module-level name
+    _mpc.wait = sim_wait
+    old_wait_names = [n for n in dir(H) if getattr(H, n, None) is _REAL_WAIT]
+    for n in old_wait_names:
+        setattr(H, n, sim_wait)
     old_psutil = H.psutil
     if desc.get("nw_none"):
         # n_workers=None: the documented default takes the physical core count from psutil
@@ -814,6 +893,9 @@ def simulate(desc, rng=None):
         s.line_p, s.lreplay = 0.0, None
         boot.CLOCK.hook = None
         H.get_context, H.datetime = old
+        _mpc.wait = _REAL_WAIT
+        for n in old_wait_names:
+            setattr(H, n, _REAL_WAIT)
         H.psutil = old_psutil
         _restore_factories(real)
         sys.unraisablehook = old_hook
